@@ -98,6 +98,7 @@ type ModelOpts struct {
 	MaxTypes    int
 	NoWildcard  bool
 	SecondUserType bool
+	Wildcard    float64 // extra probability of typed-wildcard restrictions
 	Recursive   float64 // bias towards self- and mutually recursive relations (cycle groups)
 }
 
@@ -168,7 +169,7 @@ func (g *G) Model(o ModelOpts) *rm.Model {
 				add(rm.Restriction{Type: ut, Cond: c})
 			}
 		}
-		if !o.NoWildcard && g.Chance(0.25) {
+		if !o.NoWildcard && g.Chance(0.25+o.Wildcard) {
 			ut := Pick(g, userTypes)
 			add(rm.Restriction{Type: ut, Wildcard: true, Cond: condNameMaybe(g, m, 0.3)})
 		}
@@ -181,6 +182,16 @@ func (g *G) Model(o ModelOpts) *rm.Model {
 				d = Pick(g, decls)
 			}
 			add(rm.Restriction{Type: d.typ, Relation: d.rel, Cond: condNameMaybe(g, m, 0.25)})
+			if g.Chance(0.3) {
+				// a second userset of the same type through another relation, conditioned or not
+				// (`[group#admin, group#member with c]`)
+				if others := relsOf[d.typ]; len(others) > 1 {
+					r2 := Pick(g, others)
+					if r2 != d.rel {
+						add(rm.Restriction{Type: d.typ, Relation: r2, Cond: condNameMaybe(g, m, 0.6)})
+					}
+				}
+			}
 		}
 		if g.Chance(0.1) {
 			// concrete object type as user (e.g. [folder])
@@ -973,4 +984,30 @@ func (g *G) SwapVariant(m *rm.Model) *rm.Model {
 	a.Rewrite, b.Rewrite = b.Rewrite, a.Rewrite
 	a.Restrictions, b.Restrictions = b.Restrictions, a.Restrictions
 	return &c
+}
+
+
+// WildcardTuples returns a typed-wildcard tuple for (most of) the relations that allow one, on the
+// small object universe.
+func (g *G) WildcardTuples(m *rm.Model, p float64) []rm.Tuple {
+	var out []rm.Tuple
+	for _, t := range m.Types {
+		for _, r := range t.Relations {
+			for _, res := range r.Restrictions {
+				if !res.Wildcard {
+					continue
+				}
+				for _, id := range objIDs {
+					if g.Chance(p) {
+						tu := rm.Tuple{Obj: t.Name + ":" + id, Rel: r.Name, User: res.Type + ":*", Cond: res.Cond}
+						if res.Cond != "" {
+							tu.Ctx = g.condCtx(m, res.Cond, true)
+						}
+						out = append(out, tu)
+					}
+				}
+			}
+		}
+	}
+	return out
 }
